@@ -1482,3 +1482,150 @@ Lemma read_all_transparent : forall w fs cwd top fuel,
   ra_error (read_all w fs cwd top fuel) <> Some E_Cycle ->
   read_all w fs cwd top fuel = read_all_u w fs cwd top fuel.
 Proof. intros. unfold read_all, read_all_u. now apply gft_transparent. Qed.
+
+(* ------------------------------------------------------------------ *)
+(* termination of the present loop: every step either ends the reading or replaces a read card by read cards
+   whose files have one more distinct file among those that led to them *)
+Definition Aof (cwd : string) (lin : lineage) (it : qitem) : list string :=
+  lin_get lin (realpath cwd (snd it)) ++ [realpath cwd (snd it)].
+
+Definition dist (l : list string) : nat := List.length (nodup string_dec l).
+
+(* 1 + R + R^2 + ... + R^j *)
+Fixpoint wsum (R j : nat) : nat := match j with O => 1 | S k => 1 + R * wsum R k end.
+
+Definition pot (cwd : string) (n R : nat) (lin : lineage) (q : list qitem) : nat :=
+  list_sum (map (fun it => wsum R (n - dist (Aof cwd lin it))) q).
+
+Lemma mem_str_In : forall k l, mem_str k l = true <-> In k l.
+Proof.
+  intros k. induction l as [|x l IH]; cbn [mem_str In]; [split; [discriminate|tauto]|].
+  rewrite orb_true_iff, IH, String.eqb_eq. tauto.
+Qed.
+
+Lemma dist_incl : forall a b, incl a b -> dist a <= dist b.
+Proof.
+  intros a b H. unfold dist. apply NoDup_incl_length; [apply NoDup_nodup|].
+  intros x Hx. apply nodup_In. apply H. now apply nodup_In in Hx.
+Qed.
+
+Lemma dist_le_length : forall l, dist l <= List.length l.
+Proof.
+  unfold dist. induction l as [|x l IH]; [cbn; lia|]. cbn [nodup List.length].
+  destruct (in_dec string_dec x l); cbn [List.length]; lia.
+Qed.
+
+Lemma dist_cons_notin : forall k l, ~ In k l -> dist (k :: l) = S (dist l).
+Proof. intros k l H. unfold dist. cbn [nodup]. destruct (in_dec string_dec k l); [contradiction|reflexivity]. Qed.
+
+Lemma wsum_pos : forall R j, 1 <= wsum R j.
+Proof. intros R [|j]; cbn [wsum]; lia. Qed.
+
+Lemma wsum_step : forall R j, wsum R j <= wsum R (S j).
+Proof.
+  intros R j. cbn [wsum]. destruct R as [|R]; [|nia].
+  destruct j; cbn [wsum]; lia.
+Qed.
+
+Lemma wsum_mono : forall R j j', j <= j' -> wsum R j <= wsum R j'.
+Proof. intros R j j' H. induction H; [lia|]. etransitivity; [exact IHle|apply wsum_step]. Qed.
+
+Lemma list_sum_le : forall (A : Type) (f g : A -> nat) (l : list A),
+  (forall x, In x l -> f x <= g x) -> list_sum (map f l) <= list_sum (map g l).
+Proof.
+  intros A f g. induction l as [|x l IH]; intros H; [cbn; lia|]. cbn [map]. rewrite !(list_sum_app [_]). 
+  assert (f x <= g x) by (apply H; now left). assert (list_sum (map f l) <= list_sum (map g l)) by (apply IH; intros; apply H; now right).
+  lia.
+Qed.
+
+Lemma list_sum_bound : forall (A : Type) (f : A -> nat) (b : nat) (l : list A),
+  (forall x, In x l -> f x <= b) -> list_sum (map f l) <= List.length l * b.
+Proof.
+  intros A f b. induction l as [|x l IH]; intros H; [cbn; lia|]. cbn [map List.length]. rewrite (list_sum_app [_]).
+  assert (f x <= b) by (apply H; now left). assert (list_sum (map f l) <= List.length l * b) by (apply IH; intros; apply H; now right).
+  lia.
+Qed.
+
+Lemma queue_of_parent : forall path ins c, In c (queue_of path ins) -> snd c = path.
+Proof.
+  intros path ins c H. unfold queue_of in H. apply in_flat_map in H as [i [_ H]].
+  destruct (classify i); cbn in H; try contradiction. destruct H as [<-|[]]. reflexivity.
+Qed.
+
+Lemma scan_file_parent : forall w rec bt p ls c, In c (snd (fst (scan_file w rec bt p ls))) -> snd c = p.
+Proof.
+  intros w rec bt p ls c. unfold scan_file. destruct (read_data_rec w rec bt ls) as [ins e].
+  destruct (cut_at_err ins) as [pre perr]. cbn [fst snd]. apply queue_of_parent.
+Qed.
+
+Lemma scan_file_err : forall w rec bt p ls, snd (scan_file w rec bt p ls) <> Some E_OutOfFuel.
+Proof.
+  intros w rec bt p ls. unfold scan_file. destruct (read_data_rec w rec bt ls) as [ins e].
+  destruct (cut_at_err ins) as [pre perr]. cbn [snd]. destruct perr; [discriminate|]. destruct e; discriminate.
+Qed.
+
+Lemma lin_get_grows : forall lin k extra x, incl (lin_get lin x) (lin_get ((k, lin_get lin k ++ extra) :: lin) x).
+Proof.
+  intros lin k extra x. cbn [lin_get]. destruct (String.eqb_spec k x) as [->|_]; [apply incl_appl|]; apply incl_refl.
+Qed.
+
+Lemma drain_g_terminates : forall w ft cwd dir E R,
+  (forall p ls, ft p = Some ls -> In (realpath cwd p) E) ->
+  (forall bt p ls, ft p = Some ls -> List.length (snd (fst (scan_file w true bt p ls))) <= R) ->
+  forall fuel lin q,
+    (forall x, incl (lin_get lin x) E) ->
+    Forall (fun it => In (realpath cwd (snd it)) E) q ->
+    pot cwd (List.length E) R lin q <= fuel ->
+    snd (drain_g fuel ft cwd dir w lin q) <> Some E_OutOfFuel.
+Proof.
+  intros w ft cwd dir E R HE HR. set (n := List.length E).
+  induction fuel as [|f IH]; intros lin q Hlin Hq Hpot.
+  - destruct q as [|it q]; [cbn; discriminate|]. exfalso.
+    unfold pot in Hpot. cbn [map list_sum] in Hpot.
+    assert (P := wsum_pos R (n - dist (Aof cwd lin it))). lia.
+  - destruct q as [|[[bt name] par] q']; [cbn; discriminate|].
+    cbn [drain_g]. cbv zeta.
+    set (p := path_join dir name). set (k := realpath cwd p).
+    set (anc := lin_get lin (realpath cwd par) ++ [realpath cwd par]).
+    destruct (mem_str k anc) eqn:Em; [cbn; discriminate|].
+    assert (Hk : ~ In k anc) by (intros Hin; apply mem_str_In in Hin; congruence).
+    destruct (ft p) as [ls|] eqn:Eft; [|cbn; discriminate].
+    assert (kE : In k E) by (eapply HE; eauto).
+    assert (Hsc := scan_file_err w true bt p ls).
+    assert (Hpar := scan_file_parent w true bt p ls).
+    assert (HRp := HR bt p ls Eft).
+    destruct (scan_file w true bt p ls) as [[ys qs] [e|]]; cbn [fst snd] in *; [exact Hsc|].
+    inversion Hq as [|? ? Hpk Hq']; subst. cbn [snd] in Hpk.
+    assert (ancE : incl anc E).
+    { unfold anc. apply incl_app; [apply Hlin|]. intros x [<-|[]]. exact Hpk. }
+    assert (Ha : S (dist anc) <= n).
+    { rewrite <- (dist_cons_notin k anc Hk). etransitivity; [|apply dist_le_length].
+      apply dist_incl. intros x [<-|Hx]; [exact kE|now apply ancE]. }
+    set (lin' := (k, lin_get lin k ++ anc) :: lin).
+    specialize (IH lin' (q' ++ qs)).
+    destruct (drain_g f ft cwd dir w lin' (q' ++ qs)) as [ys' e']. cbn [snd] in *.
+    apply IH.
+    + intros x. unfold lin'. cbn [lin_get]. destruct (String.eqb k x); [|apply Hlin].
+      apply incl_app; [apply Hlin|exact ancE].
+    + apply Forall_app. split; [exact Hq'|]. apply Forall_forall. intros c Hc. rewrite (Hpar c Hc). exact kE.
+    + unfold pot in *. rewrite map_app, list_sum_app. cbn [map list_sum] in Hpot.
+      change (Aof cwd lin (bt, name, par)) with anc in Hpot.
+      assert (H1 : list_sum (map (fun it => wsum R (n - dist (Aof cwd lin' it))) q')
+                   <= list_sum (map (fun it => wsum R (n - dist (Aof cwd lin it))) q')).
+      { apply list_sum_le. intros x _. apply wsum_mono.
+        assert (dist (Aof cwd lin x) <= dist (Aof cwd lin' x)); [|lia].
+        apply dist_incl. unfold Aof. apply incl_app; [|apply incl_appr, incl_refl].
+        apply incl_appl. apply lin_get_grows. }
+      assert (H2 : list_sum (map (fun it => wsum R (n - dist (Aof cwd lin' it))) qs)
+                   <= List.length qs * wsum R (n - S (dist anc))).
+      { apply list_sum_bound. intros c Hc. apply wsum_mono.
+        assert (S (dist anc) <= dist (Aof cwd lin' c)); [|lia].
+        rewrite <- (dist_cons_notin k anc Hk). apply dist_incl.
+        unfold Aof. rewrite (Hpar c Hc). fold k. unfold lin'. cbn [lin_get]. rewrite String.eqb_refl.
+        intros x [<-|Hx]; [apply in_or_app; right; now left|].
+        apply in_or_app. left. apply in_or_app. now right. }
+      assert (H3 : wsum R (n - dist anc) = 1 + R * wsum R (n - S (dist anc))).
+      { replace (n - dist anc) with (S (n - S (dist anc))) by lia. reflexivity. }
+      assert (H4 : List.length qs * wsum R (n - S (dist anc)) <= R * wsum R (n - S (dist anc))) by nia.
+      lia.
+Qed.
